@@ -294,6 +294,22 @@ def show_runes(w):
     return "".join(chr(c) if 32 <= c < 127 else "\\x{%X}" % c for c in w)
 
 
+def crash_explained(ctx, *lines):
+    """a crash that a recorded finding of this property explains - by the frame that raised the panic, never by the message
+    (e.g. F24: the dependency's renumbering queue at a 64-entry node boundary)"""
+    for l in lines:
+        if l.split(" ", 1)[0] != "PANIC":
+            continue
+        text = decode_hex_fields(l)
+        for f in known_for(ctx.pid):
+            fr = f.get("explains_panic_frame")
+            if fr and fr in text:
+                if f not in ctx.known_hits:
+                    ctx.known_hits.append(f)
+                return f["id"]
+    return None
+
+
 def prepare_regex(ctx, module, quick):
     """build, regenerate the grammar and class tables, re-check the property module"""
     ctx.build_go()
